@@ -259,10 +259,17 @@ var checkLog = ev.Register("log", func(c *LogCase) ev.Outcome {
 	}
 	for _, y := range c.Ys {
 		x := s.Unmap(y)
-		if x == 0 || (x < 0) != neg || math.IsNaN(x) {
+		// ln|Unmap(y)| by the definition; outside the normal range the result over- or
+		// underflows legitimately and only its sign is checked
+		le := lmin + y*(lmax-lmin)
+		representable := le > -700 && le < 700
+		if math.IsNaN(x) || (x != 0 && (x < 0) != neg) || (x == 0 && representable) {
 			return ev.Fail("Unmap(%v) = %v leaves the sign of the domain", y, x)
 		}
-		if math.IsInf(x, 0) {
+		if math.IsInf(x, 0) && representable {
+			return ev.Fail("Unmap(%v) = %v, the geometric interpolation exp(%v) is finite", y, x, le)
+		}
+		if !representable || math.IsInf(x, 0) || x == 0 {
 			continue
 		}
 		y2 := s.Map(x)
@@ -423,7 +430,7 @@ const rule = "Linear: |Min|,|Max| log-uniform in [1e-12,1e12] of either sign and
 	"round trips, clamp, degenerate -> 0.5. Log (via NewLog, positive and negative domains, bases 2..16): the same in log|x| " +
 	"with x within 10 log-widths, NaN for 0 and the wrong sign. NewLog accepts exactly finite ranges excluding 0 with base>=2 " +
 	"(RangeErr otherwise). QQ over all four pairings: Map = Dest.Unmap o Src.Map bit-for-bit, Unmap o Map round trip. " +
-	"Tolerances 16*eps*(|x|+|Min|+|Max|) (relative with log terms for Log). Non-trivial: non-degenerate domain and x not an end. Later additions: decreasing Log domains as keyed literals (NewLog orders its arguments), re-used scale values, clamped degenerate Log."
+	"Tolerances 16*eps*(|x|+|Min|+|Max|) (relative with log terms for Log). Non-trivial: non-degenerate domain and x not an end. Later additions: decreasing Log domains as keyed literals (NewLog orders its arguments), re-used scale values, clamped degenerate Log, Log domains over the whole normal range (1e-300..1e300, MaxFloat64, the smallest normal: Max/Min not representable)."
 
 func drawMag(t *rapid.T, label string) float64 {
 	switch rapid.IntRange(0, 2).Draw(t, label+".kind") {
@@ -433,6 +440,25 @@ func drawMag(t *rapid.T, label string) float64 {
 		return gen.LogUniform(t, 1e-12, 1e12, label)
 	}
 }
+
+// drawLogMag: end points of Log domains also cover the whole normal range - the ratio Max/Min and
+// the product Min*Max of such a domain are not representable, only the logarithms are (round 11,
+// R11-C16). MaxFloat64 itself is left out: Unmap(Map(MaxFloat64)) may round to +Inf legitimately;
+// so are subnormal end points (math.Log itself is off by 7e-4 relative at 1e-308 on this toolchain).
+func drawLogMag(t *rapid.T, label string) float64 {
+	switch rapid.IntRange(0, 4).Draw(t, label+".kind") {
+	case 0:
+		return float64(rapid.IntRange(1, 100).Draw(t, label+".int"))
+	case 3:
+		return gen.LogUniform(t, 1e-300, 1e300, label+".wide")
+	case 4:
+		return rapid.SampledFrom([]float64{1e-160, 1e160, smallestNormal, 1e-307, 1e308, 1e-155, 1e155}).Draw(t, label+".extreme")
+	default:
+		return gen.LogUniform(t, 1e-12, 1e12, label)
+	}
+}
+
+const smallestNormal = 2.2250738585072014e-308
 
 func TestLinear(t *testing.T) {
 	ev.Rule(rule)
@@ -477,15 +503,18 @@ func TestLinear(t *testing.T) {
 
 func drawLogDomain(t *rapid.T) (min, max float64, base int) {
 	sign := gen.Sign(t, "sign")
-	a := drawMag(t, "a")
+	a := drawLogMag(t, "a")
 	var b float64
 	switch rapid.IntRange(0, 4).Draw(t, "dom") {
 	case 0:
 		b = a * (1 + 1e-9)
+		if math.IsInf(b, 0) {
+			b = a
+		}
 	case 1:
 		b = a
 	default:
-		b = drawMag(t, "b")
+		b = drawLogMag(t, "b")
 	}
 	min, max = sign*a, sign*b
 	base = rapid.SampledFrom([]int{10, 2, 3, 16, 5}).Draw(t, "base")
@@ -520,7 +549,8 @@ func TestLog(t *testing.T) {
 			if u == 1 {
 				x = hi
 			}
-			if x == 0 || math.IsInf(x, 0) {
+			if x < smallestNormal || x > 1e308 {
+				// subnormal probes have no relative precision to round-trip with
 				continue
 			}
 			c.Xs = append(c.Xs, sign*x)
@@ -534,7 +564,9 @@ func TestLog(t *testing.T) {
 		case 1: // the same domain the other way round
 			c.EarlierMin, c.EarlierMax = c.Max, c.Min
 		case 2: // another domain of the same sign
-			c.EarlierMin, c.EarlierMax = c.Min*3, c.Max*50
+			if e0, e1 := c.Min*3, c.Max*50; !math.IsInf(e0, 0) && !math.IsInf(e1, 0) {
+				c.EarlierMin, c.EarlierMax = e0, e1
+			}
 		}
 		c.Decreasing = rapid.IntRange(0, 2).Draw(rt, "decreasingLiteral") == 0
 		checkLog.Run(rt, c)
